@@ -1,9 +1,80 @@
 package checks
 
 import (
+	"time"
+
 	"verifharness/internal/core"
 	"verifharness/internal/gen"
 )
+
+// stars returns m disjoint stars (centre weight 2, three leaves of weight 1): clauses and cost function.
+func stars(m int) (n int, clauses [][]int, lits, w []int) {
+	v := 0
+	for j := 0; j < m; j++ {
+		v++
+		c := v
+		lits, w = append(lits, c), append(w, 2)
+		for i := 0; i < 3; i++ {
+			v++
+			lits, w = append(lits, v), append(w, 1)
+			clauses = append(clauses, []int{c, v})
+		}
+	}
+	return v, clauses, lits, w
+}
+
+// streamCases: every maximal schedule enumerated by Stream.tla, on a problem that delivers exactly m results.
+func streamCases(env *core.Env, emitted []core.Case) []core.Case {
+	var res []core.Case
+	for i, e := range emitted {
+		m := int(e["m"].(float64))
+		fwd, _ := e["forward"].(bool)
+		c := gen.M{"drv": "stream", "tm": "StreamTrace", "m": m, "cap": int(e["cap"].(float64)), "forward": fwd, "sched": e["sched"],
+			"hasObj": false, "obj": gen.NoObj(), "objNilW": false, "strict": true, "cfg": gen.Cfg(false, 0, 0, false, false, false), "top": 0, "ev": []gen.M{}}
+		switch {
+		case fwd: // maxsat: hard star clauses, soft unit clauses
+			c["kind"] = "maxsat"
+			if m == 1 { // only hard clauses: the first model is optimal
+				c["n"], c["top"] = 2, 2
+				c["cons"] = []gen.M{{"k": "clause", "lits": []int{1, 2}, "w": []int{1, 1}, "rhs": 1, "weight": 0}, {"k": "clause", "lits": []int{-1, 2}, "w": []int{1, 1}, "rhs": 1, "weight": 0}}
+			} else {
+				n, clauses, lits, w := stars(m - 1)
+				var cons []gen.M
+				for _, cl := range clauses {
+					k := gen.Clause(cl...)
+					k["weight"] = 0
+					cons = append(cons, k)
+				}
+				for j, l := range lits {
+					k := gen.Clause(-l)
+					k["weight"] = w[j]
+					cons = append(cons, k)
+				}
+				c["n"], c["top"], c["cons"] = n, 100, cons
+			}
+		case i%2 == 0: // optimisation
+			c["kind"], c["front"] = "optimal", "slicenb"
+			if m == 1 {
+				c["n"], c["cons"] = 1, gen.ClauseCtors([][]int{{1}, {-1}})
+			} else {
+				n, clauses, lits, w := stars(m - 1)
+				c["n"], c["cons"], c["hasObj"], c["obj"] = n, gen.ClauseCtors(clauses), true, gen.M{"lits": lits, "w": w}
+			}
+		default: // enumeration: exactly m models
+			c["kind"], c["front"] = "enum", "slicenb"
+			switch m {
+			case 1:
+				c["n"], c["cons"] = 1, gen.ClauseCtors([][]int{{1}})
+			case 2:
+				c["n"], c["cons"] = 1, gen.ClauseCtors(nil)
+			default:
+				c["n"], c["cons"] = 2, gen.ClauseCtors([][]int{{1, 2}})
+			}
+		}
+		res = append(res, c)
+	}
+	return res
+}
 
 func init() {
 	// C06 — RUP certificates. Semantic tier: APITrace (every line entailed + RUP chain + refutation).
@@ -61,10 +132,16 @@ func init() {
 		Require: []string{"cfg.cert", "cert.unsat-with-lines", "cert.sat-with-lines", "tier.local", "cfg.reduceAt", "wb.restart", "wb.delete"},
 	})
 
-	// C20 — result streams (free-running layer: consumer capacity and delays)
+	// C20 — result streams: schedules enumerated by Stream.tla replayed through the gates, plus the
+	// free-running layer (consumer capacity and delays)
 	register(&core.Check{
 		ID:          "C20",
 		TraceModule: "APITrace",
+		Designs: []core.Design{
+			{Name: "stream", Module: "Stream", Cfg: "Stream_quick.cfg", Tier: "quick", Workers: 4, XmxMB: 2000, Timeout: 5 * time.Minute, ToCases: streamCases},
+			{Name: "stream", Module: "Stream", Cfg: "Stream_thorough.cfg", Tier: "thorough", Workers: 8, XmxMB: 4000, Timeout: 10 * time.Minute, ToCases: streamCases},
+			{Name: "stream-live", Module: "Stream", Cfg: "Stream_live.cfg", Workers: 4, XmxMB: 2000, Timeout: 5 * time.Minute},
+		},
 		Cases: func(env *core.Env) []core.Case {
 			r := env.Rand
 			var res []core.Case
@@ -105,6 +182,16 @@ func init() {
 			return res
 		},
 		Cover: func(t core.Case, cov map[string]int) bool {
+			if s(t, "drv") == "stream" {
+				for _, e := range evs(t) {
+					if s(e, "op") == "sched" {
+						cov["sched.replayed."+s(t, "kind")]++
+						return len(sub(e, "steps")) >= 4
+					}
+					cov["sched."+s(e, "op")]++
+				}
+				return false
+			}
 			cfg, _ := t["cfg"].(map[string]any)
 			cov["cap."+itoa(n(cfg, "cap"))]++
 			if n(cfg, "delayUs") > 0 {
@@ -132,6 +219,6 @@ func init() {
 			return nt
 		},
 		Rule:    "cases: optimisation problems (Optimal with a result channel), enumeration problems (Enumerate with a model channel) and WCNF problems (maxsat forwarding goroutine) x consumer behaviours (channel capacity 0..4, delays of 0 / 50 / 300 microseconds between receives); the consumer-side sequence, the close event and the returned value are validated; non-trivial = at least two results delivered",
-		Require: []string{"op.optimal", "op.enum", "op.maxsat-optimal", "cap.0", "cap.1", "cap.4", "consumer.delayed", "stream.improvements", "stream.improvements>=3", "stream.models"},
+		Require: []string{"op.optimal", "op.enum", "op.maxsat-optimal", "cap.0", "cap.1", "cap.4", "consumer.delayed", "stream.improvements", "stream.improvements>=3", "stream.models", "sched.replayed.optimal", "sched.replayed.enum", "sched.replayed.maxsat"},
 	})
 }
